@@ -21,7 +21,46 @@ Definition sig_wf (sg : sig) : bool :=
 Definition dump_wf_b (d : dump) : bool :=
   forallb (fun i => forallb (fun m => sig_wf (md_sig m)) (if_methods i)) (d_ifaces d).
 
+(** by-value struct containment: [ty_rank rk t] with [rk] a rank of the named types; the
+    member-wise descent of structToStruct goes from a struct to the by-value struct types of its
+    fields only (FuelProofs.v). [env_rank] computes a rank from the environment, [rank_ok_b]
+    checks that it decreases through every named type (by-value containment is well-founded, as
+    Go's rejection of invalid recursive types guarantees) and that the fuel [build_fuel] exceeds
+    the rank of every method's operands: reported with every model run, asserted by the harness. *)
+Fixpoint ty_rank (rk : N -> nat) (t : ty) : nat :=
+  match t with
+  | TNamed i => rk i
+  | TStruct _ fs =>
+      S ((fix go (fs : list field) : nat :=
+            match fs with
+            | [] => O
+            | Field _ _ _ _ _ ft :: fs' => Nat.max (ty_rank rk ft) (go fs')
+            end) fs)
+  | _ => O
+  end.
+
+Fixpoint rank_of (E : env) (fuel : nat) (i : N) : nat :=
+  match fuel with
+  | O => O
+  | S f => match get_named E i with
+           | Some n => S (ty_rank (rank_of E f) (n_under n))
+           | None => O
+           end
+  end.
+
 Definition build_fuel (d : dump) : nat := (100 + 2 * List.length (d_env d))%nat.
+
+Definition env_rank (d : dump) : N -> nat := rank_of (d_env d) (S (List.length (d_env d))).
+
+Definition rank_ok_b (d : dump) : bool :=
+  let rk := env_rank d in
+  forallb (fun k => match get_named (d_env d) (N.of_nat k) with
+                    | Some n => Nat.ltb (ty_rank rk (n_under n)) (rk (N.of_nat k))
+                    | None => true
+                    end) (seq 0 (List.length (d_env d))) &&
+  forallb (fun i => forallb (fun m =>
+      forallb (fun t => Nat.ltb (ty_rank rk (deref_ptr t)) (build_fuel d))
+              (firstn 1 (sg_ptys (md_sig m)) ++ firstn 1 (sg_rtys (md_sig m)))) (if_methods i)) (d_ifaces d).
 
 Definition doc_lines (st : store) (doc : option N) : list str :=
   match doc with
